@@ -138,11 +138,11 @@ func ruleCommitTally(c *Ctx) {
 				}
 				return false
 			}}
-		okT := c.ge().ensures(f, strict, 0)
+		okT := c.ge().ensures(f, strict, 2)
 		c.Check(okT, fk+" :: success only with tallied > needed", w.pos(f.Pos()), "every nil return is behind the strict threshold comparison", "a nil (accept) return is reachable without 'tallied > needed' with the required threshold expression")
 		if strings.HasSuffix(name, "Trusting") {
-			c.Check(c.ge().ensures(f, guardRe("no overflow in T*numerator", `^false\(types\.safeMul\(.*\)#1\)$`), 0), fk+" :: overflow-checked multiplication", w.pos(f.Pos()), "accept only if safeMul reported no overflow", "accept possible after an overflowing multiplication")
-			c.Check(c.ge().ensures(f, guardCmp("denominator != 0", `\w+\.Denominator`, "!=", "0"), 0), fk+" :: non-zero denominator", w.pos(f.Pos()), "accept only with a non-zero denominator", "accept possible with a zero denominator")
+			c.Check(c.ge().ensures(f, guardRe("no overflow in T*numerator", `^false\(types\.safeMul\(.*\)#1\)$`), 2), fk+" :: overflow-checked multiplication", w.pos(f.Pos()), "accept only if safeMul reported no overflow", "accept possible after an overflowing multiplication")
+			c.Check(c.ge().ensures(f, guardCmp("denominator != 0", `\w+\.Denominator`, "!=", "0"), 2), fk+" :: non-zero denominator", w.pos(f.Pos()), "accept only with a non-zero denominator", "accept possible with a zero denominator")
 		}
 	}
 }
@@ -193,36 +193,41 @@ func ruleCanonicalVote(c *Ctx) {
 	// CommitSig.BlockID: the commit's id only for the Commit flag, zero id for Nil/Absent
 	if f := c.fn("types", "CommitSig.BlockID"); f != nil {
 		commitFlag := c.mustConst("types", "BlockIDFlagCommit")
-		ok := false
-		for _, b := range f.Blocks {
-			for _, in := range b.Instrs {
-				phi, isPhi := in.(*ssa.Phi)
-				if !isPhi {
-					continue
+		g := guardCmp("flag is Commit", `\w+\.BlockIDFlag`, "==", fmt.Sprint(commitFlag))
+		ok := true
+		nParam := 0
+		var flows func(v ssa.Value, at ssa.Instruction, depth int)
+		flows = func(v ssa.Value, at ssa.Instruction, depth int) {
+			if depth > 4 {
+				return
+			}
+			switch x := v.(type) {
+			case *ssa.Parameter:
+				nParam++
+				if good, _ := c.ge().guardedLocal(f, at, g, 2); !good {
+					ok = false
 				}
-				nCommit := 0
-				good := true
-				for i, e := range phi.Edges {
-					if _, isParam := e.(*ssa.Parameter); isParam {
-						nCommit++
-						// the predecessor must be reached only on flag == Commit
-						pred := phi.Block().Preds[i]
-						okEdge := false
-						for _, a := range dominatingAtoms(pred) {
-							if a.Kind == "cmp" && a.Op == token.EQL {
-								if v, isC := constInt(a.Y); isC && v == commitFlag && strings.HasSuffix(w.expr(a.X), ".BlockIDFlag") {
-									okEdge = true
-								}
+			case *ssa.Phi:
+				for i, e := range x.Edges {
+					pred := x.Block().Preds[i]
+					flows(e, pred.Instrs[len(pred.Instrs)-1], depth+1)
+				}
+			case *ssa.UnOp:
+				if al, isAlloc := x.X.(*ssa.Alloc); isAlloc {
+					for _, b := range f.Blocks {
+						for _, in := range b.Instrs {
+							if st, isSt := in.(*ssa.Store); isSt && st.Addr == ssa.Value(al) {
+								flows(st.Val, st, depth+1)
 							}
 						}
-						good = good && okEdge
 					}
-				}
-				if nCommit == 1 && good {
-					ok = true
 				}
 			}
 		}
+		for _, ret := range returnsOf(f) {
+			flows(ret.(*ssa.Return).Results[0], ret, 0)
+		}
+		ok = ok && nParam >= 1
 		c.Check(ok, "types.CommitSig.BlockID yields the commit's id only for BlockIDFlagCommit", w.pos(f.Pos()), "nil/absent signatures sign the zero block id", "a signature not flagged Commit can yield the commit's block id")
 	}
 	if f := c.fn("types", "CommitSig.ForBlock"); f != nil {
